@@ -104,6 +104,31 @@ class _ClassRef:
     pass
 
 
+class _Fn:
+    """A function value of the interpreted code: a def (method, module-level function, nested function) with the environment it closes over."""
+
+    def __init__(self, fdef, closure: Optional[Dict[str, object]] = None):
+        self.fdef, self.closure = fdef, closure if closure is not None else {}
+
+    def __repr__(self):
+        return f"<function {self.fdef.name}>"
+
+
+class _Op:
+    """A function of the `operator` module as a first-class value."""
+
+    def __init__(self, name: str):
+        self.name = name
+
+    def __repr__(self):
+        return f"<operator.{self.name}>"
+
+
+_OP_CMP = {"lt": ast.Lt, "le": ast.LtE, "gt": ast.Gt, "ge": ast.GtE, "eq": ast.Eq, "ne": ast.NotEq, "is_": ast.Is, "is_not": ast.IsNot}
+_OP_BIN = {"add": ast.Add, "sub": ast.Sub, "mod": ast.Mod, "mul": ast.Mult, "floordiv": ast.FloorDiv, "truediv": ast.Div, "pow": ast.Pow, "lshift": ast.LShift,
+           "rshift": ast.RShift, "and_": ast.BitAnd, "or_": ast.BitOr, "xor": ast.BitXor}
+_IDENTITY_DECORATORS = ("wraps", "functools.wraps")       # @wraps(f) copies metadata only
+
 _CMP_METHOD = {ast.Eq: ("__eq__", "__eq__"), ast.NotEq: ("__ne__", "__ne__"), ast.Lt: ("__lt__", "__gt__"), ast.Gt: ("__gt__", "__lt__"),
                ast.LtE: ("__le__", "__ge__"), ast.GtE: ("__ge__", "__le__")}
 
@@ -118,6 +143,7 @@ class Interp:
         self.methods = methods(cls)
         self.classref = _ClassRef()
         self.fuel = 0
+        self._mvals: Dict[str, object] = {}
 
     # ---- hash(): CPython on a 64-bit platform (sys.hash_info.modulus == 2**61 - 1) ------------
     @staticmethod
@@ -160,15 +186,51 @@ class Interp:
         f = self.methods.get(name)
         if f is None:
             raise _Unsupported(f"method {name} not defined in the class")
-        self.fuel += 1
-        if self.fuel > 200:
-            raise _Unsupported("call depth")
-        try:
-            env = self._bind(f, [obj] + list(args), kw or {})
-            r = self._block(f.body, env)
-            return r[1] if r is not None else None
-        finally:
-            self.fuel -= 1
+        return self._apply(self._method_value(name), [obj] + list(args), kw or {})
+
+    def _method_value(self, name: str):
+        """What the class attribute `name` is bound to: the def itself, or - for a decorated method - the result of calling its decorators (private
+        module-level functions, interpreted once, as at class creation)."""
+        if name not in self._mvals:
+            f = self.methods[name]
+            self._mvals[name] = self._decorate(_Fn(f, {}), f, {})
+        return self._mvals[name]
+
+    def _decorate(self, val, f, env):
+        for d in reversed(getattr(f, "decorator_list", [])):
+            if isinstance(d, ast.Call) and (dotted(d.func) or "") in _IDENTITY_DECORATORS:
+                continue
+            nm = dotted(d) or ""
+            if nm in ("staticmethod", "classmethod", "property") or nm.startswith("typing.") or nm in ("overload", "final"):
+                raise _Unsupported("decorator " + nm)
+            dec = self._expr(d, env)
+            val = self._apply(dec, [val], {})
+        return val
+
+    def _apply(self, callee, args: List[object], kw: Dict[str, object]):
+        if isinstance(callee, _Fn):
+            self.fuel += 1
+            if self.fuel > 200:
+                raise _Unsupported("call depth")
+            try:
+                env = dict(callee.closure)
+                env.update(self._bind(callee.fdef, list(args), kw))
+                r = self._block(callee.fdef.body, env)
+                return r[1] if r is not None else None
+            finally:
+                self.fuel -= 1
+        if isinstance(callee, _Op):
+            if kw or len(args) != 2:
+                if callee.name == "neg" and len(args) == 1 and isinstance(args[0], (int, float)) and not kw:
+                    return -args[0]
+                raise _Raised("TypeError")
+            a, b = args
+            if callee.name in _OP_CMP:
+                return self._cmp(_OP_CMP[callee.name], a, b)
+            return self._arith(_OP_BIN[callee.name](), a, b)
+        if callee is self.classref:
+            return self.construct(*args, **kw)
+        raise _Unsupported(f"call of {callee!r}")
 
     def compare(self, op, a, b):
         """Python's rich-comparison protocol restricted to the interpreted class."""
@@ -286,6 +348,9 @@ class Interp:
                     if fr is not None:
                         return fr
             return r
+        if isinstance(st, ast.FunctionDef):
+            env[st.name] = self._decorate(_Fn(st, env), st, env)     # closes over the live environment, as Python does
+            return None
         raise _Unsupported("statement " + type(st).__name__)
 
     @staticmethod
@@ -337,11 +402,16 @@ class Interp:
             if n.id == self.cls.name:
                 return self.classref
             if self.mod is not None:
+                d = self.mod.find(n.id)
+                if isinstance(d, ast.FunctionDef):
+                    return self._decorate(_Fn(d, {}), d, {})
                 v = self.mod.module_assign(n.id)
                 if isinstance(v, ast.Constant) and isinstance(v.value, (int, float, str, bytes, bool, type(None))):
                     return v.value
             raise _Unsupported("name " + n.id)
         if isinstance(n, ast.Attribute):
+            if isinstance(n.value, ast.Name) and n.value.id == "operator" and "operator" not in env and (n.attr in _OP_CMP or n.attr in _OP_BIN or n.attr == "neg"):
+                return _Op(n.attr)
             o = self._expr(n.value, env)
             if isinstance(o, _Obj):
                 if n.attr == "__class__":
@@ -379,58 +449,7 @@ class Interp:
         if isinstance(n, ast.IfExp):
             return self._expr(n.body if self._truth(self._expr(n.test, env)) else n.orelse, env)
         if isinstance(n, ast.BinOp):
-            a, b = self._expr(n.left, env), self._expr(n.right, env)
-            if isinstance(a, _Obj) or isinstance(b, _Obj):
-                if isinstance(n.op, ast.Add) and isinstance(a, _Obj):
-                    r = self._dunder(a, "__add__", b)
-                    if r is not NOTIMPL:
-                        return r
-                raise _Raised("TypeError")
-            if not (isinstance(a, (int, float)) and isinstance(b, (int, float))):
-                raise _Raised("TypeError")
-            try:
-                if isinstance(n.op, ast.Div):
-                    return a / b
-                if isinstance(a, float) or isinstance(b, float):
-                    # float arithmetic (a value that went through true division): Python semantics, including rounding
-                    fops = {ast.Add: lambda: a + b, ast.Sub: lambda: a - b, ast.Mult: lambda: a * b, ast.Mod: lambda: a % b, ast.FloorDiv: lambda: a // b,
-                            ast.Pow: lambda: a ** b if abs(b) <= 4096 else (_ for _ in ()).throw(_Unsupported("pow range"))}
-                    if type(n.op) in fops:
-                        return fops[type(n.op)]()
-                    raise _Raised("TypeError")      # shifts / bit operations on floats
-                if isinstance(n.op, ast.Add):
-                    return a + b
-                if isinstance(n.op, ast.Sub):
-                    return a - b
-                if isinstance(n.op, ast.Mult):
-                    return a * b
-                if isinstance(n.op, ast.Mod):
-                    return a % b
-                if isinstance(n.op, ast.FloorDiv):
-                    return a // b
-                if isinstance(n.op, ast.Pow):
-                    if b < 0 or b > 4096:
-                        raise _Unsupported("pow range")
-                    return a ** b
-                if isinstance(n.op, ast.LShift):
-                    if b < 0 or b > 4096:
-                        raise _Unsupported("shift range")
-                    return a << b
-                if isinstance(n.op, ast.RShift):
-                    return a >> b
-                if isinstance(n.op, ast.BitAnd):
-                    return a & b
-                if isinstance(n.op, ast.BitOr):
-                    return a | b
-                if isinstance(n.op, ast.BitXor):
-                    return a ^ b
-            except ZeroDivisionError:
-                raise _Raised("ZeroDivisionError")
-            except OverflowError:
-                raise _Raised("OverflowError")
-            except ValueError:
-                raise _Raised("ValueError")
-            raise _Unsupported("operator " + type(n.op).__name__)
+            return self._arith(n.op, self._expr(n.left, env), self._expr(n.right, env))
         if isinstance(n, ast.Compare):
             left = self._expr(n.left, env)
             res = True
@@ -444,6 +463,59 @@ class Interp:
         if isinstance(n, ast.Call):
             return self._call(n, env)
         raise _Unsupported("expression " + type(n).__name__)
+
+    def _arith(self, op, a, b):
+        if isinstance(a, _Obj) or isinstance(b, _Obj):
+            if isinstance(op, ast.Add) and isinstance(a, _Obj):
+                r = self._dunder(a, "__add__", b)
+                if r is not NOTIMPL:
+                    return r
+            raise _Raised("TypeError")
+        if not (isinstance(a, (int, float)) and isinstance(b, (int, float))):
+            raise _Raised("TypeError")
+        try:
+            if isinstance(op, ast.Div):
+                return a / b
+            if isinstance(a, float) or isinstance(b, float):
+                # float arithmetic (a value that went through true division): Python semantics, including rounding
+                fops = {ast.Add: lambda: a + b, ast.Sub: lambda: a - b, ast.Mult: lambda: a * b, ast.Mod: lambda: a % b, ast.FloorDiv: lambda: a // b,
+                        ast.Pow: lambda: a ** b if abs(b) <= 4096 else (_ for _ in ()).throw(_Unsupported("pow range"))}
+                if type(op) in fops:
+                    return fops[type(op)]()
+                raise _Raised("TypeError")      # shifts / bit operations on floats
+            if isinstance(op, ast.Add):
+                return a + b
+            if isinstance(op, ast.Sub):
+                return a - b
+            if isinstance(op, ast.Mult):
+                return a * b
+            if isinstance(op, ast.Mod):
+                return a % b
+            if isinstance(op, ast.FloorDiv):
+                return a // b
+            if isinstance(op, ast.Pow):
+                if b < 0 or b > 4096:
+                    raise _Unsupported("pow range")
+                return a ** b
+            if isinstance(op, ast.LShift):
+                if b < 0 or b > 4096:
+                    raise _Unsupported("shift range")
+                return a << b
+            if isinstance(op, ast.RShift):
+                return a >> b
+            if isinstance(op, ast.BitAnd):
+                return a & b
+            if isinstance(op, ast.BitOr):
+                return a | b
+            if isinstance(op, ast.BitXor):
+                return a ^ b
+        except ZeroDivisionError:
+            raise _Raised("ZeroDivisionError")
+        except OverflowError:
+            raise _Raised("OverflowError")
+        except ValueError:
+            raise _Raised("ValueError")
+        raise _Unsupported("operator " + type(op).__name__)
 
     def _cmp(self, op, a, b):
         if op in (ast.Is, ast.IsNot):
@@ -491,29 +563,15 @@ class Interp:
             return self._hash(args[0])
         if fname in ("abs", "min", "max") and args and all(isinstance(a, (int, float)) for a in args) and not kw:
             return {"abs": abs, "min": min, "max": max}[fname](*args)
-        if isinstance(f, ast.Attribute):
+        if isinstance(f, ast.Attribute) and not (isinstance(f.value, ast.Name) and f.value.id == "operator" and "operator" not in env):
             recv = self._expr(f.value, env)
             if isinstance(recv, _Obj) and f.attr in self.methods:
                 return self.call(recv, f.attr, args, kw)
             if recv is self.classref and f.attr in self.methods and args and isinstance(args[0], _Obj):
                 return self.call(args[0], f.attr, args[1:], kw)  # SerialNumber.__lt__(self, other)
             raise _Unsupported("call " + src(f))
-        if isinstance(f, ast.Name) and f.id not in env and self.mod is not None:
-            # a (private) module-level function of the same module: interpreted in the same whitelisted subset
-            d = self.mod.find(f.id)
-            if isinstance(d, ast.FunctionDef) and not d.decorator_list:
-                self.fuel += 1
-                if self.fuel > 200:
-                    raise _Unsupported("call depth")
-                try:
-                    r = self._block(d.body, self._bind(d, list(args), kw))
-                    return r[1] if r is not None else None
-                finally:
-                    self.fuel -= 1
-        callee = self._expr(f, env)
-        if callee is self.classref:
-            return self.construct(*args, **kw)
-        raise _Unsupported("call " + src(f))
+        # a function value: a local bound to a def / closure / operator function, a (private) module-level function, the class itself
+        return self._apply(self._expr(f, env), args, kw)
 
 
 # --------------------------------------------------------------------------------------------------
@@ -615,6 +673,10 @@ def width_uniform(ctx, mod, cls) -> Tuple[bool, str]:
         if any(f is x for x in seen):
             continue
         seen.append(f)
+        for d in getattr(f, "decorator_list", []):       # a private decorator wraps the method: its code runs on every comparison
+            dn = d.func if isinstance(d, ast.Call) else d
+            if isinstance(dn, ast.Name) and isinstance(mod.find(dn.id), ast.FunctionDef):
+                todo.append(mod.find(dn.id))
         for c in ast.walk(f):
             if isinstance(c, ast.Call) and isinstance(c.func, ast.Name):
                 d = mod.find(c.func.id)
@@ -622,6 +684,25 @@ def width_uniform(ctx, mod, cls) -> Tuple[bool, str]:
                     todo.append(d)
             if isinstance(c, ast.Call) and isinstance(c.func, ast.Attribute) and isinstance(c.func.value, ast.Name) and c.func.value.id in ("self", cls.name) and c.func.attr in ms:
                 todo.append(ms[c.func.attr])
+    # a function received as an argument and called on the numbers must be an order/equality comparison of the operator module at every call site
+    # (a decorator calling the method it wraps is the method itself: already in the closure)
+    decorators = {(d.func if isinstance(d, ast.Call) else d).id for f in seen for d in getattr(f, "decorator_list", []) if isinstance((d.func if isinstance(d, ast.Call) else d), ast.Name)}
+    for f in seen:
+        params = [a.arg for a in f.args.args]
+        for c in ast.walk(f):
+            if not (isinstance(c, ast.Call) and isinstance(c.func, ast.Name) and c.func.id in params):
+                continue
+            if f.name in decorators:
+                continue
+            pos = params.index(c.func.id)
+            sites = [x for g in seen for x in ast.walk(g) if isinstance(x, ast.Call) and ((isinstance(x.func, ast.Attribute) and x.func.attr == f.name) or (isinstance(x.func, ast.Name) and x.func.id == f.name))]
+            if not sites:
+                return False, f"{f.name} calls its parameter `{c.func.id}` and no call site of {f.name} is visible"
+            for x in sites:
+                off = 1 if (isinstance(x.func, ast.Attribute) and params and params[0] in ("self", "cls")) else 0
+                a = x.args[pos - off] if 0 <= pos - off < len(x.args) else next((k.value for k in x.keywords if k.arg == c.func.id), None)
+                if not (isinstance(a, ast.Attribute) and isinstance(a.value, ast.Name) and a.value.id == "operator" and a.attr in ("lt", "le", "gt", "ge", "eq", "ne")):
+                    return False, f"{f.name} applies the function it is given as `{c.func.id}` to the numbers; at `{src(x)}` that is not an order comparison of the operator module"
     for f in seen:
         for n in ast.walk(f):
             if isinstance(n, ast.Raise) or (isinstance(n, ast.JoinedStr)):
@@ -978,6 +1059,11 @@ def check(ctx):
 # --------------------------------------------------------------------------------------------------
 
 MUTANTS = [
+    Mutant("eq-decorator-lets-incompatible-operands-through", RFC, "    def __eq__(self, other: object) -> bool:\n        \"\"\"\n        Allow rich equality comparison with another L{SerialNumber} instance.\n        \"\"\"\n        try:\n            other = self._convertOther(other)\n        except TypeError:\n            return NotImplemented\n        return other._number == self._number\n", "    @_checked\n    def __eq__(self, other):\n        return other._number == self._number\n", more=[(RFC, "class SerialNumber(FancyStrMixin):\n", "def _checked(method):\n    def wrapper(self, other):\n        try:\n            peer = self._convertOther(other)\n        except TypeError:\n            peer = other\n        return method(self, peer)\n\n    return wrapper\n\n\nclass SerialNumber(FancyStrMixin):\n")], expect_rule="rfc1982/refuses-other-width"),
+    Mutant("lt-operator-functions-swapped", RFC, "        return (\n            self._number < other._number\n            and (other._number - self._number) < self._halfRing\n        ) or (\n            self._number > other._number\n            and (self._number - other._number) > self._halfRing\n        )\n", "        return self._ordered(other, operator.gt, operator.lt)\n",
+           more=[(RFC, "import calendar\n", "import calendar\nimport operator\n"),
+                 (RFC, "    def __eq__(self, other: object) -> bool:\n", "    def _ordered(self, other, ahead, behind):\n        mine, theirs = self._number, other._number\n        if mine < theirs:\n            return ahead(theirs - mine, self._halfRing)\n"
+                  "        if mine > theirs:\n            return behind(mine - theirs, self._halfRing)\n        return False\n\n    def __eq__(self, other: object) -> bool:\n")], expect_rule="rfc1982/compare-table"),
     Mutant("eq-through-hash-of-the-numbers", RFC, "        return other._number == self._number\n", "        return hash(other._number) == hash(self._number)\n", expect_rule="rfc1982/eq-on-ring-value"),
     Mutant("eq-through-float-locals", RFC, "        return other._number == self._number\n", "        mine = float(self._number)\n        theirs = float(other._number)\n        return mine == theirs\n",
            expect_rule="rfc1982/eq-on-ring-value"),
@@ -1014,6 +1100,12 @@ MUTANTS = [
 ]
 
 SILENT = [
+    # the operand check in a private decorator; the half-ring test through comparison functions handed over as values
+    Silent("eq-operand-check-in-a-private-decorator", RFC, "    def __eq__(self, other: object) -> bool:\n        \"\"\"\n        Allow rich equality comparison with another L{SerialNumber} instance.\n        \"\"\"\n        try:\n            other = self._convertOther(other)\n        except TypeError:\n            return NotImplemented\n        return other._number == self._number\n", "    @_checked\n    def __eq__(self, other):\n        return other._number == self._number\n", more=[(RFC, "class SerialNumber(FancyStrMixin):\n", "def _checked(method):\n    def wrapper(self, other):\n        try:\n            peer = self._convertOther(other)\n        except TypeError:\n            return NotImplemented\n        return method(self, peer)\n\n    return wrapper\n\n\nclass SerialNumber(FancyStrMixin):\n")]),
+    Silent("lt-through-operator-functions", RFC, "        return (\n            self._number < other._number\n            and (other._number - self._number) < self._halfRing\n        ) or (\n            self._number > other._number\n            and (self._number - other._number) > self._halfRing\n        )\n", "        return self._ordered(other, operator.lt, operator.gt)\n",
+           more=[(RFC, "import calendar\n", "import calendar\nimport operator\n"),
+                 (RFC, "    def __eq__(self, other: object) -> bool:\n", "    def _ordered(self, other, ahead, behind):\n        mine, theirs = self._number, other._number\n        if mine < theirs:\n            return ahead(theirs - mine, self._halfRing)\n"
+                  "        if mine > theirs:\n            return behind(mine - theirs, self._halfRing)\n        return False\n\n    def __eq__(self, other: object) -> bool:\n")]),
     Silent("eq-through-int-and-locals", RFC, "        return other._number == self._number\n", "        mine = int(self)\n        theirs = int(other)\n        return not mine != theirs\n"),
     Silent("eq-on-number-and-width-tuples", RFC, "        return other._number == self._number\n", "        return (other._number, other._serialBits) == (self._number, self._serialBits)\n"),
     Silent("hash-of-number-and-width", RFC, "        return hash(self._number)\n", "        return hash((self._number, self._serialBits))\n"),
